@@ -339,7 +339,7 @@ def _flat_values(x):
         return []
 
 
-def results_differ(got, want, tol):
+def results_differ(got, want, tol, angles=False):
     """Compare what a query returns on the object that went through the history with what it returns on a fresh
     object of the same abstract state.  The two objects hold projectively equal but not bit-identical data, so only
     well-conditioned outputs are compared: entries that are finite and of moderate size (< 1e6) in BOTH results;
@@ -360,7 +360,11 @@ def results_differ(got, want, tol):
             okm = okm & np.all(okm, axis=-1, keepdims=True)
         if not okm.any():
             continue
-        err = np.abs(x - y)[okm]
+        err = np.abs(x - y)
+        if angles:
+            # arc angles (degrees or radians) are defined modulo a full turn: 360 and 0 are the same angle
+            err = np.minimum(err, np.minimum(np.abs(err - 360.0), np.abs(err - 2 * np.pi)))
+        err = err[okm]
         scale = np.maximum(1.0, np.abs(y)[okm])
         if (err <= max(tol, 1e-6) * scale).all():
             continue
@@ -444,7 +448,8 @@ def battery(ctx, state):
             return n, ("query.raised:" + q, "%s: %s" % (type(e).__name__, e))
         # after astype(float32) the object carries single-precision data: near-degenerate outputs (radii of almost
         # straight arcs, NaN patterns) legitimately differ from the double-precision fresh object
-        bad = results_differ(got, want, ctx.tol) if (ctx.tol <= 1e-6 and not ctx.negreps) else None
+        bad = (results_differ(got, want, ctx.tol, angles=q in ("circle_parameters", "edges_circle_parameters"))
+               if (ctx.tol <= 1e-6 and not ctx.negreps) else None)
         if bad and q in ("circle_parameters", "edges_circle_parameters", "sphere_parameters"):
             # centre, radius and angles of one unit belong together: when any of them is degenerate (a geodesic
             # through the half-space point at infinity, a diameter) the others carry no information either
